@@ -1,8 +1,10 @@
 import MpsVerif.Drv.Fifo
 import MpsVerif.Drv.Refcount
+import MpsVerif.Drv.ProxyCall
 
 def main (args : List String) : IO UInt32 := do
   match args with
   | ["fifo"] => Fifo.Drv.main; return 0
   | ["refcount"] => Refcount.Drv.main; return 0
+  | ["proxycall"] => ProxyCall.Drv.main; return 0
   | _ => IO.eprintln s!"usage: drv <model>   (models: fifo)"; return 2
